@@ -3,7 +3,7 @@
    Create / CreateFail / Drop / Call from the initial state (any number alive, any page growth). *)
 From Coq Require Import ZArith NArith List Bool.
 Import ListNotations.
-From Cffi Require Import C29.Model C29.Proofs.
+From Cffi Require Import C29.Model C29.Proofs C29.Prog C29.Gen C29.GenProofs.
 Open Scope Z_scope.
 
 (* the invariant: free list duplicate-free, live closure addresses duplicate-free, the two
@@ -76,6 +76,43 @@ Theorem C29_growth_amount : forall c s,
   npages (more_core c s) = 1 + (npages s * 13) / 10.
 Proof. exact growth_amount. Qed.
 Print Assumptions C29_growth_amount.
+
+(* ---- obligations on the source TEXT of more_core(), regenerated into C29/Gen.v on every run
+   (assignments to allocate_num_pages and count, the mmap() size, the threading-loop bound): *)
+
+(* every item threaded onto the free list lies inside the block just mapped — for every call,
+   whatever allocate_num_pages is on entry (this is what C29_invariant's "inside a block" and the
+   (block, slot) addresses of the hand model rest on) *)
+Theorem C29_gen_threaded_inside_mapping : forall ps bs n,
+  0 < ps -> 0 < bs -> 0 <= n ->
+  let r := exec ps bs more_core_prog n in
+  0 <= m_threaded r /\ m_threaded r * bs <= m_mapped r.
+Proof. exact gen_threaded_inside_mapping. Qed.
+Print Assumptions C29_gen_threaded_inside_mapping.
+
+(* the text computes exactly the hand model's growth: new page count and number of items *)
+Theorem C29_gen_matches_model : forall c n,
+  0 < pagesize c -> 0 < blocksize c -> 0 <= n ->
+  let r := exec (pagesize c) (blocksize c) more_core_prog n in
+  m_pages r = grow n /\ Z.to_N (m_threaded r) = count_of c (grow n).
+Proof. exact gen_matches_model. Qed.
+Print Assumptions C29_gen_matches_model.
+
+Theorem C29_gen_no_overflow : forall ps bs, 0 < ps -> 0 < bs ->
+  forall fuel step n total, 0 <= n -> first_overflow ps bs more_core_prog fuel step n total = None.
+Proof. exact gen_no_overflow. Qed.
+Print Assumptions C29_gen_no_overflow.
+
+(* non-vacuity of the search: a program that caps the page count AFTER computing count (and before
+   mmap) overflows at its 14th growth step, after 17694 closures: 4681 items fit, 5924 are threaded *)
+Example C29_example_overflow_found :
+  first_overflow 4096 56
+    [ SAssign VPages (EAdd (EInt 1) (ETruncMulRat (EV VPages) 13 10));
+      SAssign VCount (EDiv (EMul (EV VPages) EPagesize) ESizeofBlock);
+      SIf CGt (EV VPages) (EInt 64) VPages (EInt 64);
+      SMmap (EMul (EV VPages) EPagesize);
+      SThread (EV VCount) ] 40 0 0 0 = Some (14%N, 17694, 4681, 5924).
+Proof. vm_compute. reflexivity. Qed.
 
 (* non-vacuity: 4-item pages; fill the first block, spill into the second, drop two, fail once,
    re-create (LIFO), call *)
